@@ -219,6 +219,12 @@ def run_shard(pid: str, tier: str, seed: int, shard: int, nshards: int, out_path
         detail = ''.join(traceback.format_exception(type(e), e, e.__traceback__))[-4000:]
         detail += f'\ncurrent case: {safe(ctx.current)}'
     rec.stop()
+    if os.environ.get('VERIF_COVDIR'):   # tools/libcov.py: every pjrpc line this shard executed (gap finder, no verdict)
+        allhit: Dict[str, List[int]] = {}
+        for (f, _q), lines in rec.lines.items():
+            allhit.setdefault(f, []).extend(lines)
+        with open(os.path.join(os.environ['VERIF_COVDIR'], f'{pid}-{shard}-{os.getpid()}.json'), 'w') as f:
+            json.dump({k: sorted(set(v)) for k, v in allhit.items()}, f)
     faulthandler.cancel_dump_traceback_later()
     gc.collect()
 
